@@ -117,8 +117,16 @@ func (m *member) CloseWithStatus(transport.CloseStatus) error {
 	}
 	return nil
 }
-func (m *member) RxBytesCounterValue() uint64 { return m.rxb }
-func (m *member) TxBytesCounterValue() uint64 { return m.tx }
+func (m *member) RxBytesCounterValue() uint64 {
+	m.s.mu.Lock()
+	defer m.s.mu.Unlock()
+	return m.rxb
+}
+func (m *member) TxBytesCounterValue() uint64 {
+	m.s.mu.Lock()
+	defer m.s.mu.Unlock()
+	return m.tx
+}
 func (m *member) Name() transport.Name        { return "member" }
 func (m *member) NegotiationParams() transport.NegotiationParams {
 	return m.cfg.NegotiationParams()
@@ -171,8 +179,10 @@ func (m *member) deliver(b []byte) bool {
 		return false
 	}
 	m.rx <- b
+	m.s.mu.Lock()
 	m.delivered++
 	m.rxb += uint64(len(b))
+	m.s.mu.Unlock()
 	return true
 }
 
